@@ -336,6 +336,11 @@ class Fn:
                 return args[0]
         if generic == "std::clone::Clone::clone" and args:
             return ("call", "clone", args, (self.name, bb))
+        if generic.startswith("std::ops::") and len(args) == 2 and generic.split("::")[-1] in PRIM_OPS and generic.split("::")[-2] == PRIM_OPS[generic.split("::")[-1]]:
+            # an arithmetic operator applied through the trait to primitive integers (`a ^ &b`, `&a + b`): the plain binary operation
+            m = re.match(r"^<&?(?:'\w+ )?(u8|u16|u32|u64|u128|usize|i8|i16|i32|i64|i128|isize) as std::ops::", callee)
+            if m:
+                return norm_binop(PRIM_OPS[generic.split("::")[-1]], args[0], args[1])
         if generic.startswith("std::cmp::PartialOrd::") and len(args) == 2 and generic.split("::")[-1] in ("lt", "le", "gt", "ge"):
             # one canonical comparison: a <= b.  a >= b is b <= a; a > b is !(a <= b); a < b is !(b <= a)  (total orders)
             m = generic.split("::")[-1]
@@ -448,8 +453,10 @@ class Fn:
             return False
         for b in live:
             t = self.term(b)
-            if t["k"] in ("switch", "assert"):
+            if t["k"] == "switch":
                 return False
+            if t["k"] == "assert" and t.get("msg") not in ("Overflow", "DivisionByZero", "RemainderByZero"):
+                return False        # arithmetic checks of a pure computation do not make it less of an accessor
             if t["k"] == "call" and not (t["callee"] in TRANSPARENT_CALLS or t["callee"] == "std::clone::Clone::clone"):
                 return False
             for s in self.blocks[b]["stmts"]:
@@ -643,6 +650,7 @@ def downcast(base, variant):
     return ("variant", base, variant)
 
 
+PRIM_OPS = {"add": "Add", "sub": "Sub", "mul": "Mul", "div": "Div", "rem": "Rem", "bitxor": "BitXor", "bitand": "BitAnd", "bitor": "BitOr", "shl": "Shl", "shr": "Shr"}
 COMMUTATIVE = {"Add", "Mul", "BitAnd", "BitOr", "BitXor", "Eq", "Ne", "AddWithOverflow", "MulWithOverflow", "AddUnchecked"}
 FLIP = {"Lt": "Gt", "Gt": "Lt", "Le": "Ge", "Ge": "Le"}
 
@@ -1453,3 +1461,24 @@ def eq_variant(expr):
             if v[0] == "agg" and v[2] and not v[3] and x[0] != "agg":
                 return x, v[2], (not is_ne) != neg
     return None
+
+
+def le_truth(atom, is_a, is_b):
+    """truth of `a <= b` established by a bool atom, whichever way the comparison is written:
+    Le(a, b) = t  |  Lt(b, a) = !t ; None when the atom is not about (a, b)"""
+    if atom[0] != "bool":
+        return None
+    e = atom[1]
+    if not (isinstance(e, tuple) and e and e[0] == "binop" and e[1] in ("Le", "Lt")):
+        return None
+    if e[1] == "Le" and is_a(e[2]) and is_b(e[3]):
+        return atom[2]
+    if e[1] == "Lt" and is_b(e[2]) and is_a(e[3]):
+        return not atom[2]
+    return None
+
+
+def lt_truth(atom, is_a, is_b):
+    """truth of `a < b`: Lt(a, b) = t | Le(b, a) = !t"""
+    r = le_truth(atom, is_b, is_a)
+    return None if r is None else (not r)
